@@ -27,6 +27,16 @@ def check_clause_native(ct, args, clauses=None):
     env = dict(args)
     env.update(extra)
     env['result'] = result
+    if extra.get('_exc'):
+        # the modelled callee raised: only the exceptional-exit clauses apply
+        for name, fn, props in ct.exc_ensures:
+            cname = 'on-exception:%s' % name
+            if clauses is not None and cname not in clauses:
+                continue
+            if not bool(call_native(fn, env)):
+                return {'args': args, 'observed': 'exc_ensures_%s is False after the callee raised; state left: %r' % (
+                    name, {k: v for k, v in extra.items() if k.endswith('_out')}), 'clause': cname}
+        return None
     if raised is not None:
         fn = ct.raises.get(raised)
         if fn is not None and call_native(fn, args):
